@@ -163,7 +163,7 @@ class Analysis:
         pk = place_key(p)
         if pk in st:
             return st[pk]
-        if len(pk[1]) >= 2 and pk[1][-2][0] == 'dc' and pk[1][-2][1] == 'Some' and pk[1][-1][0] == 'f':
+        if len(pk[1]) >= 2 and pk[1][-2][0] == 'dc' and pk[1][-2][1] in ('Some', 'Ok') and pk[1][-1][0] == 'f':
             base = (pk[0], pk[1][:-2])
             if ('some', base) in st:
                 t0 = type_range(self.ty_of_place(p))
@@ -547,6 +547,11 @@ class Analysis:
             p1 = op_place(args[1])
             if p1 is not None:
                 newrel = ('inrange', self.root_of_ref(place_key(p1)), lo, hi)
+        elif callee in ('core::convert::TryFrom::try_from', 'core::convert::TryInto::try_into') and len(args) == 1 and \
+                av[0] is not None and (self.operand_ty(args[0]) or {}).get('k') == 'int':
+            # integer narrowing: the Ok payload is the argument itself (when it fits)
+            val = None
+            self._set_aux = ('some', av[0])
         elif callee == 'char::to_digit' and len(args) == 2:
             val = None
             r = av[1]
